@@ -140,7 +140,7 @@ def normalize_formats(fn: ast.AST, module_top: dict) -> bool:
         if isinstance(n, ast.Assign):
             for t in n.targets:
                 for x in ast.walk(t):
-                    if isinstance(x, ast.Name):
+                    if isinstance(x, ast.Name) and isinstance(x.ctx, (ast.Store, ast.Del)):
                         local.setdefault(x.id, []).append(n.value if t is x else None)
         elif isinstance(n, (ast.AnnAssign, ast.AugAssign, ast.NamedExpr)):
             t = n.target
@@ -585,7 +585,7 @@ def scalar_replace(fn: ast.AST, module) -> bool:
         if isinstance(n, ast.Assign):
             for t in n.targets:
                 for x in ast.walk(t):
-                    if isinstance(x, ast.Name):
+                    if isinstance(x, ast.Name) and isinstance(x.ctx, (ast.Store, ast.Del)):
                         binds.setdefault(x.id, []).append(n.value if t is x else None)
         elif isinstance(n, (ast.AnnAssign, ast.AugAssign, ast.NamedExpr)) and isinstance(n.target, ast.Name):
             binds.setdefault(n.target.id, []).append(getattr(n, "value", None) if not isinstance(n, ast.AugAssign) else None)
